@@ -53,6 +53,10 @@ def run(ctx):
     opts = [dict(shards=s, watchwithoutclass=True) for s in (0, 1, 3)]
     hs = ctl.tlc_histories(ctx, 300 if q else 6000, maxops=3, maxbatches=3, tag="sim", opts=opts)
     hs += shard_histories(ctx, 350 if q else 8000)
+    # tcp services: hostnames join and leave ports that are already written (SNI maps, tls binds)
+    import random
+    trng = random.Random(ctx.seed * 2147483647 + 5)
+    hs += [U.random_tcp_history(trng, "tcp-%d" % i, steps=4 + trng.randrange(3)) for i in range(80 if q else 2000)]
     # regression seed of the listed finding (auth-proxy leftovers), so that it is observed on every run
     hs.append(dict(id="seed-auth-leftover", opt=dict(shards=0, watchwithoutclass=True), steps=[
         dict(ops=U.base_ops() + [U.op_ing(1, "t1", {"auth-url": "http://10.0.0.9:8000/auth"})]),
